@@ -91,7 +91,7 @@ def full_matrix(scn, fn):
     return D
 
 
-def run_scenario(scn, want_events=True):
+def run_scenario(scn, want_events=True, twin_fin=None):
     """Returns (trace, None) or (None, skip_reason) or raises for harness errors. Exceptions of the
     code under test are returned as (None, ("exception", repr))."""
     np = _np()
@@ -178,6 +178,8 @@ def run_scenario(scn, want_events=True):
     rk.add_all(D.ravel())
     rk.add_all(DQ.ravel())
     rk.add_all(fin["cost"])
+    if twin_fin is not None:
+        rk.add_all(twin_fin["cost"])
     for s in snaps:
         rk.add_all(s["key"])
     if rk.unrankable:
@@ -226,8 +228,16 @@ def run_scenario(scn, want_events=True):
             "proto": [i + 1 for i, s in enumerate(fin["status"]) if s == c.PROTOTYPE],
             "order": [i + 1 for i in fin["order"]],
         },
-        "q": [{"dx": [rk(DQ[t, j]) for t in range(n)], "res": qres[j] + 1} for j in range(len(Q))],
+        "q": [{"dx": [rk(DQ[t, j]) for t in range(n)], "res": qres[j] + 1, "self": (rows.index(Q[j]) + 1 if Q[j] in rows[:nl] else 0)} for j in range(len(Q))],
     }
+    if twin_fin is not None:
+        tr["tw"] = {
+            "cost": [rk(v) for v in twin_fin["cost"]],
+            "pred": [p + 1 for p in twin_fin["pred"]],
+            "lab": [x + 1 for x in twin_fin["lab"]],
+            "proto": [i + 1 for i, s in enumerate(twin_fin["status"]) if s == c.PROTOTYPE],
+            "order": [i + 1 for i in twin_fin["order"]],
+        }
     # sanity on ids so that TLC never sees an out-of-range index (would be an evaluation error, not a verdict)
     bad = None
     if any(not (0 <= p <= n) for p in tr["fin"]["pred"]):
